@@ -143,7 +143,7 @@ pub fn case_state(va: &dyn VariantApi, gs: &GenState, st: &CaseStats) -> Result<
     let Some(g) = va.gen_from_state(gs) else { return Err("hook gen_from_state not available".into()) };
     let mg = model_from_state(v, gs);
     let total = gs.len as u64 + 4;
-    if g.processed_len() != Some(total as u32) {
+    if g.processed_len() != u32::try_from(total).ok() {
         return Err(format!("{}: processed_len() {:?} != injected {}", v.name, g.processed_len(), total));
     }
     let mut any_ok = false;
